@@ -239,6 +239,7 @@ pub fn event(e: &Event) -> Value {
             items_after,
         } => json!({"ev": "target", "from": from, "sym": sym(symbol), "to": to, "new": is_new, "grew": grew,
             "items": items_after.iter().map(item).collect::<Vec<_>>()}),
+        Event::ScanItem { state, item: it } => json!({"ev": "scan", "state": state, "item": item(it)}),
         Event::SetAction {
             state,
             quasiterminal,
